@@ -477,10 +477,41 @@ def _zero(ip, st, t, a, rt):
 
 
 # --- clones, conversions -----------------------------------------------------------------
+_DERIVED = {}
+
+
+def _is_derived(ip, body):
+    """A crate-local trait impl produced by `#[derive(..)]`: its span is the derive attribute (possibly spread over several lines), never a `fn` item."""
+    key = (body.get('file'), body.get('line'))
+    if key not in _DERIVED:
+        ok = False
+        try:
+            import os as _os
+            with open(_os.path.join(_os.environ.get('MV_REPO', '/repo'), body['file'])) as f:
+                src = f.read().split('\n')
+            ln = body['line']
+            here = src[ln - 1]
+            if not re.search(r'\bfn\b', here):
+                for k in range(ln - 1, max(-1, ln - 10), -1):
+                    if 'derive(' in src[k]:
+                        ok = True
+                        break
+                    if re.search(r'\b(struct|enum|fn|impl)\b', src[k]) and k != ln - 1:
+                        break
+        except (OSError, KeyError, IndexError, TypeError):
+            ok = False
+        _DERIVED[key] = ok
+    return _DERIVED[key]
+
+
 @regx(r'^(<.* as std::clone::Clone>::clone|std::clone::Clone::clone|std::clone::impls::<impl std::clone::Clone for .*>::clone|std::array::<impl std::clone::Clone for \[T; N\]>::clone)$')
 def _clone(ip, st, t, a, rt):
     callee = t.get('resolved') or t.get('callee')
-    # crate-local Clone impls have bodies (derived): interpreting them is equivalent to copying
+    # crate-local Clone impls have bodies: a derived one copies field by field (interpreting it is equivalent to copying); a hand-written one is
+    # code like any other and is evaluated (a Clone that drops a field is a way to lose a cell's safety radius)
+    bs = ip.facts.by_path.get(callee) if callee else None
+    if bs and not _is_derived(ip, bs[0]):
+        return NotImplemented
     return deref(a[0])
 
 
